@@ -40,6 +40,9 @@ Bad(e) ==
          \* the user token a file carries (login name rendered as name::token) is one minted for that file's user
          \cup (IF "userTokSubOK" \in DOMAIN e /\ ~e.userTokSubOK THEN {"G_C15_TokenInFileIsTheUsers"} ELSE {})
          \cup (IF e.status = 200 /\ ~(e.expIn >= 0 /\ e.expIn <= Tok!Lifetime) THEN {"G_C02_MintLifetime"} ELSE {})
+    [] e.ev = "usertokx" ->
+         \* the running gateway's /tokeninfo answers as the keys of its configuration say
+         (IF e.status # Tok!TokenInfoStatus(e.vm, "GET", TRUE, e.tok) THEN {"G_C15_StatusAsConfigured"} ELSE {})
     [] OTHER -> {"G_UnknownEvent"}
 TInit == l = 1 /\ viol = {} /\ cover = {} /\ sess = [b \in Browsers |-> Fresh] /\ states = {} /\ nextId = 1 /\ last = NoLast
 TNext == /\ l <= Len(TraceLog)
